@@ -7,7 +7,7 @@
 From Coq Require Import ZArith List Bool.
 From Coq Require Import Floats.SpecFloat.
 From PV Require Import Lib.PyBase Spec.Cal Spec.Zone Spec.NativeDT Spec.TdFloat Proofs.ZoneFacts Proofs.AddDurationFacts Gen.AddDuration.
-From PV Require Import Model.TzConvert Model.Duration Model.CalendarArith Proofs.C04Facts.
+From PV Require Import Model.TzConvert Model.Duration Model.CalendarArith Proofs.C04Facts Proofs.C04Cancel.
 Import ListNotations.
 Open Scope Z_scope.
 
@@ -98,6 +98,52 @@ Theorem add_neg_is_subtract : forall k W f y mo wk d h m s us,
   dt_add k W f y mo wk d h m s us = dt_subtract k W f (- y) (- mo) (- wk) (- d) (- h) (- m) (- s) (- us).
 Proof. exact add_neg_is_subtract_l. Qed.
 Print Assumptions add_neg_is_subtract.
+
+(* calendar-unit arguments that CANCEL each other (weeks=1, days=-7; years=1, months=-12; days=1, hours=-24): the call still involves a
+   calendar unit, so the time units move on the WALL clock and the result is normalised by create -- it is not a pure elapsed-time shift.
+   More generally a calendar call depends on its amounts only through 12*years+months and the total of the rest. *)
+Theorem add_calendar_depends_on_totals : forall z fx W f Y M Wk D h m s us Y' M' Wk' D' h' m' s' us',
+  wall_in_range W = true -> any_cal Y M Wk D = true -> any_cal Y' M' Wk' D' = true ->
+  12 * Y + M = 12 * Y' + M' ->
+  td_total_us (D + 7 * Wk) h m s us = td_total_us (D' + 7 * Wk') h' m' s' us' ->
+  dt_add (Aware z fx) W f Y M Wk D h m s us = dt_add (Aware z fx) W f Y' M' Wk' D' h' m' s' us'.
+Proof. exact add_calendar_depends_on_totals. Qed.
+Print Assumptions add_calendar_depends_on_totals.
+
+Theorem add_cancelling_units_wall_clock : forall z fx W f Y M Wk D h m s us,
+  wall_in_range W = true -> any_cal Y M Wk D = true -> 12 * Y + M = 0 -> D + 7 * Wk = 0 ->
+  dt_add (Aware z fx) W f Y M Wk D h m s us =
+  match wall_shift true W (td_total_us 0 h m s us) with
+  | Raise e => Raise e
+  | Ok W' => create z fx W' true false
+  end.
+Proof. exact add_cancelling_wall_clock. Qed.
+Print Assumptions add_cancelling_units_wall_clock.
+
+Theorem subtract_cancelling_units_wall_clock : forall z fx W f Y M Wk D h m s us,
+  wall_in_range W = true -> any_cal Y M Wk D = true -> 12 * Y + M = 0 -> D + 7 * Wk = 0 ->
+  dt_subtract (Aware z fx) W f Y M Wk D h m s us =
+  match wall_shift true W (td_total_us 0 (- h) (- m) (- s) (- us)) with
+  | Raise e => Raise e
+  | Ok W' => create z fx W' true false
+  end.
+Proof. exact subtract_cancelling_wall_clock. Qed.
+Print Assumptions subtract_cancelling_units_wall_clock.
+
+(* satisfiable, and different from the elapsed-time shift across an offset change: Europe/Paris 2013-03-31T01:30 .add(weeks=1, days=-7, hours=2)
+   = 03:30+02:00 whereas .add(hours=2) = 04:30+02:00; 2013-10-27T01:30+02:00 .add(weeks=-2, days=14, hours=1) = 02:30+01:00 whereas .add(hours=1) = 02:30+02:00 *)
+Theorem cancelling_units_examples :
+  any_cal 0 0 1 (-7) = true /\ 12 * 0 + 0 = 0 /\ -7 + 7 * 1 = 0 /\ wf2_zone paris13 = true /\
+  dt_add (Aware paris13 false) (wall_of 2013 3 31 1 30 0 0) false 0 0 1 (-7) 2 0 0 0 = Ok (wall_of 2013 3 31 3 30 0 0, true) /\
+  dt_add (Aware paris13 false) (wall_of 2013 3 31 1 30 0 0) false 0 0 0 0 2 0 0 0 = Ok (wall_of 2013 3 31 4 30 0 0, false) /\
+  dt_add (Aware paris13 false) (wall_of 2013 3 31 1 30 0 0) false 1 (-12) 0 0 2 0 0 0 = Ok (wall_of 2013 3 31 3 30 0 0, true) /\
+  dt_add (Aware paris13 false) (wall_of 2013 3 31 1 30 0 0) false 0 0 0 1 (-22) 0 0 0 = Ok (wall_of 2013 3 31 3 30 0 0, true) /\
+  dt_subtract (Aware paris13 false) (wall_of 2013 3 31 1 30 0 0) false 0 0 (-1) 7 (-2) 0 0 0 = Ok (wall_of 2013 3 31 3 30 0 0, true) /\
+  dt_add (Aware paris13 false) (wall_of 2013 10 27 1 30 0 0) false 0 0 (-2) 14 1 0 0 0 = Ok (wall_of 2013 10 27 2 30 0 0, true) /\
+  dt_add (Aware paris13 false) (wall_of 2013 10 27 1 30 0 0) false 0 0 0 0 1 0 0 0 = Ok (wall_of 2013 10 27 2 30 0 0, false) /\
+  off_local paris13 (sec (wall_of 2013 10 27 2 30 0 0)) true = 3600 /\ off_local paris13 (sec (wall_of 2013 10 27 2 30 0 0)) false = 7200.
+Proof. exact cancelling_examples. Qed.
+Print Assumptions cancelling_units_examples.
 
 (* Date.add: the same year/month step, then whole days *)
 Theorem date_add_spec : forall W Y M Wk D, wall_in_range W = true ->
